@@ -16,8 +16,11 @@ import time
 import traceback
 
 VERIF = os.path.dirname(os.path.dirname(os.path.abspath(__file__)))
-REPLAY_DIR = os.path.join(VERIF, 'replays')
-EVID_DIR = os.path.join(VERIF, 'evidence')
+# development runs against a scratch copy (PYVC_REPO set by tools/mutcheck.sh, refcheck*.sh, refpatch.sh) must not overwrite the
+# evidence of /repo: their output goes to a scratch directory
+_SCRATCH = os.environ.get('PYVC_REPO') not in (None, '', '/repo')
+REPLAY_DIR = os.path.join(VERIF, 'replays') if not _SCRATCH else os.path.join(os.environ['PYVC_REPO'], '_pyvc_replays')
+EVID_DIR = os.path.join(VERIF, 'evidence') if not _SCRATCH else os.path.join(os.environ['PYVC_REPO'], '_pyvc_evidence')
 VENV_PY = '/venv/bin/python'
 
 
